@@ -46,6 +46,18 @@ type lostAnchor struct{ what string }
 func (c *Ctx) setRule(id, text string) { c.rid, c.rule = id, text }
 
 func (c *Ctx) add(status, key, pos, detail string, path ...string) *Obligation {
+	if status == "violated" {
+		// A function the reference tree does not know and that could not be expanded into its callers (a goroutine
+		// body, a function passed as a value): no rule was written with it in view. A report that is about that
+		// function is "cannot vouch", not a violation.
+		for _, n := range c.NewKept {
+			if keyNames(key, n) {
+				status, path = "undecided", nil
+				detail = "the code was restructured into " + n + ", a function the reference tree does not have and that is not an ordinary call (goroutine body / function value): the rule cannot follow it. Would have reported: " + detail
+				break
+			}
+		}
+	}
 	o := &Obligation{Key: c.rid + "/" + key, Rule: c.rule, Status: status, Pos: pos, Detail: detail, Path: path,
 		Config: c.GOOS + "/" + c.GOARCH}
 	c.Obs = append(c.Obs, o)
@@ -332,4 +344,30 @@ func maxInt(a, b int) int {
 		return a
 	}
 	return b
+}
+
+// keyNames: the obligation key mentions the function name n (whole identifier, with or without its receiver type).
+func keyNames(key, n string) bool {
+	cands := []string{n}
+	if i := strings.LastIndex(n, "."); i >= 0 {
+		cands = append(cands, n[i+1:])
+	}
+	isId := func(b byte) bool {
+		return b == '_' || b >= '0' && b <= '9' || b >= 'a' && b <= 'z' || b >= 'A' && b <= 'Z'
+	}
+	for _, cand := range cands {
+		for from := 0; ; {
+			i := strings.Index(key[from:], cand)
+			if i < 0 {
+				break
+			}
+			i += from
+			j := i + len(cand)
+			if (i == 0 || !isId(key[i-1])) && (j == len(key) || !isId(key[j])) {
+				return true
+			}
+			from = i + 1
+		}
+	}
+	return false
 }
